@@ -72,7 +72,32 @@ Theorem C16_admin_empty_right_is_star : forall path, validate_go true [] path = 
 Proof. intros path. rewrite matcher_refines_spec. exact (admin_empty_right_is_star path). Qed.
 Print Assumptions C16_admin_empty_right_is_star.
 
-(* the oracle applied to the implementation's answers accepts the model on every case ... *)
+(* the user as currently saved: after saving one name twice (auth.Save -> CopyFrom: admin flag,
+   password rule, access strings, then init), validation equals the documented language on the
+   SECOND save's (admin, push, pull) alone - nothing of the first save survives *)
+Theorem C16_resave_is_fresh : forall s1 s2,
+  exists u, save_go (save_go None s1) s2 = Some u /\
+            forall r path, validate_user u r path = spec_save s2 r path.
+Proof. exact resave_is_fresh. Qed.
+Print Assumptions C16_resave_is_fresh.
+
+(* stronger: one Save on top of any stored state whatsoever (old flag, old strings, old matcher lists) *)
+Theorem C16_save_is_fresh : forall st s,
+  exists u, save_go st s = Some u /\
+            forall r path, validate_user u r path = spec_save s r path.
+Proof. exact save_is_fresh. Qed.
+Print Assumptions C16_save_is_fresh.
+
+(* histories of any length: only the last save counts *)
+Theorem C16_history_is_last : forall saves s,
+  last_save saves = Some s ->
+  exists u, fold_left save_go saves None = Some u /\
+            forall r path, validate_user u r path = spec_save s r path.
+Proof. exact history_is_last. Qed.
+Print Assumptions C16_history_is_last.
+
+(* the oracle applied to the implementation's answers accepts the model on every case
+   (fresh right, bare pattern, history of saves of one name - of any length) ... *)
 Theorem C16_model_passes : forall c, ok_case c (enc_answers (run_case c)) = true.
 Proof. exact model_passes_oracle. Qed.
 Print Assumptions C16_model_passes.
@@ -103,5 +128,8 @@ Example C16_nonvacuous :
   validate_go false [47;97;47;43;47;99;47;42] [47;65;47;98;47;67;47;100] = true /\
   validate_go false [47;97;47;43;47;99;47;42] [47;97;47;99] = false /\
   validate_go false [47;120;59;32;47;97;32;47;66] [32;47;97;32;47;98;47;32] = true /\
-  right_blank_edges [47;97;47;43;47;99;47;42] = false.
-Proof. vm_compute. auto. Qed.
+  right_blank_edges [47;97;47;43;47;99;47;42] = false /\
+  (* administrator with empty rights, then saved again as an ordinary user with empty rights *)
+  run_case (CHist [mkSave true [112] [] [] true; mkSave false [] [] [] false] [[47;97]]) = [false; false] /\
+  run_case (CHist [mkSave true [112] [] [] true] [[47;97]]) = [true; true].
+Proof. vm_compute. auto 10. Qed.
